@@ -129,6 +129,8 @@ def g1(run: Run, cy: CyProgram):
             idx = [idx0]
             # loop domain: the two index variables enumerate the full triangle
             a, b = idx[0]
+            if a == b:
+                continue        # the diagonal element, stored on its own
             loops = {pp(l.a[0]): l for l in chain}
             if a not in loops or b not in loops:
                 # the pairs are not enumerated by two nested for loops (a cursor
@@ -149,8 +151,17 @@ def g1(run: Run, cy: CyProgram):
             excl = irange == f"range({outer})"
             # the output may also be a parameter that the caller zero-initialises
             caller_zero = f.argtype(out) is not None
+            # the diagonal peeled out of the inner loop: `out[o, o] = ...` once per
+            # iteration of the outer loop
+            oi = [pp(l_.a[0]) for l_ in chain].index(outer)
+            diag = any(
+                s2.k == "assign" and any(
+                    t.k == "index" and pp(t.a[0]) == out and len(t.a[1]) == 2 and
+                    pp(t.a[1][0]) == outer == pp(t.a[1][1]) for t in s2.a[0])
+                and [id(l_) for l_ in c2] == [id(l_) for l_ in chain[:oi + 1]]
+                for s2, c2 in allst)
             full = orange.startswith("range(") and "," not in orange and \
-                (incl or (excl and (zero_init or caller_zero)))
+                (incl or (excl and (zero_init or caller_zero or diag)))
             run.oblige("G1", f"{kname}:domain", full, sample={
                 "outer": orange, "inner": irange, "zero_initialised_output": zero_init})
             if not full:
@@ -360,6 +371,21 @@ def g2(run: Run, prog: Program, cy: CyProgram):
                         isinstance(st.value, ast.Call) and \
                         ast.unparse(st.value.func) == "np.clip":
                     hi = lo = True
+            def _num_is(e, v):
+                try:
+                    return float(ast.literal_eval(e)) == v
+                except Exception:
+                    return False
+            for c2 in ast.walk(m.node):
+                # np.clip(x, -1, 1, out=x)  |  x.clip(-1, 1, out=x)  |  arccos(np.clip(x, -1, 1))
+                if isinstance(c2, ast.Call) and ast.unparse(c2.func) == "np.clip" and \
+                        len(c2.args) >= 3 and _num_is(c2.args[1], -1.0) and \
+                        _num_is(c2.args[2], 1.0):
+                    outk = next((ast.unparse(k.value) for k in c2.keywords
+                                 if k.arg == "out"), None)
+                    if (ast.unparse(c2.args[0]) == arg and outk == arg) or \
+                            ast.unparse(c2) == arg:
+                        hi = lo = True
             for side, ok in (("upper", hi), ("lower", lo)):
                 run.oblige("G2", f"GeoGrid.{mname}:{side}-clamp", ok)
                 if not ok:
